@@ -30,6 +30,7 @@ type Env struct {
 	depth   int
 	outer   map[string]Val // entry values of the enclosing function's parameters (closure contracts)
 	tfn     *ssa.Function  // the function the clause belongs to (type parameters resolve to its type arguments)
+	cur     *Env           // for an old-state environment: the current one (locals are values, not state: old(p.f) reads the old heap at the current p)
 }
 
 func (e *Env) fail(format string, a ...interface{}) Val {
@@ -269,6 +270,7 @@ func (e *Env) eval(ex SExpr) Val {
 				base = len(e.old.st.pc)
 			}
 			e.old.errs = e.errs
+			e.old.cur = e
 			v := e.old.eval(n.X)
 			if e.old.st != nil && e.st != nil && e.old.st != e.st {
 				for _, f := range e.old.st.pc[base:] {
@@ -426,6 +428,11 @@ func (e *Env) evalIdent(name string) Val {
 	if o := types.Universe.Lookup(name); o != nil {
 		if c, ok := o.(*types.Const); ok {
 			return e.constVal(c.Val(), c.Type())
+		}
+	}
+	if e.cur != nil {
+		if v, ok := e.cur.localByName(name); ok {
+			return v
 		}
 	}
 	_ = x
@@ -699,6 +706,10 @@ func (e *Env) evalSel(n SSel) Val {
 		}
 		return Val{Tup: v.Tup}
 	}
+	if n.Name == "arg" && v.Org == "callevent" {
+		// calls[i].arg.k: the k-th argument of the logged call (a method's receiver is argument 0)
+		return Val{Tup: v.Elems}
+	}
 	if v.Typ == nil {
 		return e.fail("selector on untyped value in %s", exprString(n))
 	}
@@ -757,7 +768,7 @@ func (e *Env) evalIndex(n SIndex) Val {
 			return Val{Org: "callevent-missing", Tup: nil, T: x.d.Fresh("noevent", "Bool")}
 		}
 		ev := e.events[iv.V]
-		return Val{Org: "callevent", Tup: ev.Results}
+		return Val{Org: "callevent", Tup: ev.Results, Elems: ev.Args}
 	}
 	v := e.eval(n.X)
 	i := e.eval(n.I)
@@ -1100,6 +1111,37 @@ func (e *Env) evalCall(n SCall) Val {
 			return Val{T: IntLit(0), Typ: types.Typ[types.Int]}
 		case "stopped":
 			return Val{T: e.st.stopped, Typ: boolT}
+		case "memberOf":
+			// memberOf(s, v): v occurs in the slice s
+			sv := e.eval(n.Args[0])
+			vv := e.eval(n.Args[1])
+			if sv.Typ == nil {
+				return e.fail("memberOf: untyped slice")
+			}
+			x.te.SortOf(sv.Typ)
+			x.memFacts(e.st, sliceArr(sv.T), sliceLen(sv.T))
+			return Val{T: x.memTerm(sliceArr(sv.T), sliceLen(sv.T), x.termOf(e.st, &vv)), Typ: boolT}
+		case "basicAuth":
+			u := e.eval(n.Args[0])
+			p := e.eval(n.Args[1])
+			x.d.DeclareFun("basicAuth", "(declare-fun basicAuth (String String) String)")
+			return Val{T: mk("String", "str.++", StrLit("Basic "), mk("String", "basicAuth", u.T, p.T)), Typ: types.Typ[types.String]}
+		case "ncallsOf":
+			// ncallsOf("Method"): how many logged calls of that method (or function) name
+			lit, ok := n.Args[0].(SStr)
+			if !ok {
+				return e.fail("ncallsOf needs a literal name")
+			}
+			if e.eventsUnknown {
+				return Val{T: x.d.Fresh("ncalls", "Int"), Typ: types.Typ[types.Int]}
+			}
+			k := 0
+			for _, ev := range e.events {
+				if ev.Method == lit.V || (ev.Static != nil && ev.Static.Name() == lit.V) {
+					k++
+				}
+			}
+			return Val{T: IntLit(int64(k)), Typ: types.Typ[types.Int]}
 		case "copyErr":
 			// copyErr(): the error returned by the last io.Copy on this path (nil if none ran)
 			if t, ok := e.st.ghost["copyerr"]; ok {
